@@ -74,6 +74,7 @@ func satMul(a, b int64) int64 {
 	}
 	return a * b
 }
+
 var botItv = Itv{1, 0}
 
 func (a Itv) add(b Itv) Itv {
@@ -144,7 +145,7 @@ func (a Itv) join(b Itv) Itv {
 	return r
 }
 func (a Itv) within(b Itv) bool { return a.Lo >= b.Lo && a.Hi <= b.Hi }
-func (a Itv) empty() bool      { return a.Lo > a.Hi }
+func (a Itv) empty() bool       { return a.Lo > a.Hi }
 
 func typeRange(t types.Type) Itv {
 	b, ok := t.Underlying().(*types.Basic)
@@ -218,8 +219,8 @@ func (a LinForm) String() string {
 // for loads and checked at every store (kind "inv-store"), so they hold
 // inductively.
 var fieldInvariants = map[string]Itv{
-	"tcp.SACKInfo.NumBlocks":     {0, 6},   // number of valid entries of Blocks [MaxSACKBlocks]
-	"stack.linkAddrCache.next":   {0, 511}, // ring index into entries [linkAddrCacheSize]
+	"tcp.SACKInfo.NumBlocks":   {0, 6},   // number of valid entries of Blocks [MaxSACKBlocks]
+	"stack.linkAddrCache.next": {0, 511}, // ring index into entries [linkAddrCacheSize]
 }
 
 // ---------------------------------------------------------------- per-function analysis
@@ -227,7 +228,7 @@ var fieldInvariants = map[string]Itv{
 type AObl struct {
 	Fn    *ssa.Function
 	Instr ssa.Instruction
-	Kind  string // index-lo | index-hi | slice | need-len | div-zero | narrow | wrap | progress
+	Kind  string  // index-lo | index-hi | slice | need-len | div-zero | narrow | wrap | progress
 	Goal  LinForm // goal <= 0
 	Desc  string
 	OK    bool
@@ -251,20 +252,20 @@ func NewAbsint(p *Program) *Absint {
 }
 
 type absFn struct {
-	an      *Absint
-	fn      *ssa.Function
-	t       *Termer
-	facts   map[int][]LinForm
-	phiBase map[*ssa.Phi]Itv
-	rootVal map[string]ssa.Value
-	keyMemo map[ssa.Value]string
-	evalMemo map[evalKey]Itv
-	busy    map[evalKey]bool
-	entry   []LinForm
-	obls    []*AObl
-	done    bool
+	an         *Absint
+	fn         *ssa.Function
+	t          *Termer
+	facts      map[int][]LinForm
+	phiBase    map[*ssa.Phi]Itv
+	rootVal    map[string]ssa.Value
+	keyMemo    map[ssa.Value]string
+	evalMemo   map[evalKey]Itv
+	busy       map[evalKey]bool
+	entry      []LinForm
+	obls       []*AObl
+	done       bool
 	inFixpoint bool
-	defBusy bool
+	defBusy    bool
 }
 
 type evalKey struct {
@@ -1014,12 +1015,18 @@ func (a *absFn) translateLF(f LinForm, args []ssa.Value) (LinForm, bool) {
 		var repl LinForm
 		var i int
 		switch {
-		case func() bool { n, err := fmt.Sscanf(k, "len($%d)", &i); return n == 1 && err == nil && k == fmt.Sprintf("len($%d)", i) }():
+		case func() bool {
+			n, err := fmt.Sscanf(k, "len($%d)", &i)
+			return n == 1 && err == nil && k == fmt.Sprintf("len($%d)", i)
+		}():
 			if i >= len(args) {
 				return nf, false
 			}
 			repl = a.lenForm(args[i], 0)
-		case func() bool { n, err := fmt.Sscanf(k, "$%d", &i); return n == 1 && err == nil && k == fmt.Sprintf("$%d", i) }():
+		case func() bool {
+			n, err := fmt.Sscanf(k, "$%d", &i)
+			return n == 1 && err == nil && k == fmt.Sprintf("$%d", i)
+		}():
 			if i >= len(args) {
 				return nf, false
 			}
@@ -1048,8 +1055,9 @@ func (a *absFn) translateLF(f LinForm, args []ssa.Value) (LinForm, bool) {
 
 // Term axioms: frozen equivalences between terms, each established by a
 // reviewed rule elsewhere (see DESIGN.md, C07/P2):
-//   tcp.newSegment(r, id, vv).data      == Clone(vv)     (site table on newSegment, C07/P2-ax1)
-//   First(Clone(X, _)) == First(X), Size(Clone(X, _)) == Size(X)   (C16/V3: Clone copies the chunk list)
+//
+//	tcp.newSegment(r, id, vv).data      == Clone(vv)     (site table on newSegment, C07/P2-ax1)
+//	First(Clone(X, _)) == First(X), Size(Clone(X, _)) == Size(X)   (C16/V3: Clone copies the chunk list)
 func normalizeKey(k string) string {
 	for iter := 0; iter < 6; iter++ {
 		old := k
